@@ -706,7 +706,7 @@ class PersistTx(Tx):
         nxt = lambda e, a, dd: self.block(rest, e, a, dd, cont)   # noqa: E731
         if isinstance(s, ast.Expr) and isinstance(s.value, ast.Constant) and isinstance(s.value.value, str):
             return nxt(env, alias, d)
-        if isinstance(s, ast.Assert):
+        if isinstance(s, (ast.Assert, ast.Pass)):
             return nxt(env, alias, d)
         if ast.unparse(s) in DROPPED_STMTS.get(self.CLS, []):
             return f"{I}-- not translated: {ast.unparse(s)[:100]}\n" + nxt(env, alias, d)
